@@ -23,6 +23,7 @@ EXPLANATION = (
     '(Python) the adapter hands the native code only (carry-over buffer, finality) - no absolute position - and the buffer always starts at the previous cut (C10.R4); '
     'the adapter is stateless across calls and keyed per call (C10.R3); the stream producer pads between files with (-bytes streamed for the previous file) mod '
     'alignment zero bytes, where alignment is the chunker adapter\'s constant and is a multiple of the native candidate stride. Rules C11.R1-R3.'
+    ' Added with the seeded-defect rounds: every file enters the stream once, snapshot cuts with self.props.chunkify only, cache holds snapshot objects only.'
 )
 NOT_DECIDED = 'resynchronisation distance, coincidence of boundaries on shared suffixes, key sensitivity (statistical statements about hash values)'
 TRUSTED = c10.TRUSTED
